@@ -858,7 +858,12 @@ class HexaryTrie:
                 # if the new root node is missing, then we shouldn't crash here
                 self.root_hash = memory_trie.root_hash
             else:
-                self.root_hash = self._set_raw_node(raw_root_node)
+                if self.is_pruning:
+                    # The batch already stored the new root node and counted the
+                    # reference to it; storing it again would count it twice.
+                    self.root_hash = memory_trie.root_hash
+                else:
+                    self.root_hash = self._set_raw_node(raw_root_node)
 
     @contextlib.contextmanager
     def at_root(self, at_root_hash):
